@@ -16,9 +16,9 @@ verus! {
 pub struct DynJob { pub id: Ghost<int> }
 pub type BoxedJob = Box<DynJob>;
 
-/// `Vec<Weak<Condvar>>`: contents are irrelevant to every property (liveness only).
-#[verifier::external_body]
-pub struct WakeBlocked { _p: () }
+/// `Vec<Weak<Condvar>>`: the condition variables of blocked sync callers (contents matter to liveness only)
+pub struct WeakCondvar { pub _p: () }
+pub type WakeBlocked = Vec<WeakCondvar>;
 
 pub struct JobQueueCore {
     pub queue: VecDeque<BoxedJob>,
@@ -215,8 +215,12 @@ impl<T> Mutex<Option<T>> {
 }
 
 impl<T> Mutex<T> {
+    /// the value the mutex was created with
+    pub uninterp spec fn init_value(&self) -> T;
     #[verifier::external_body]
-    pub fn new(v: T) -> (r: Self) { unimplemented!() }
+    pub fn new(v: T) -> (r: Self)
+        ensures r.init_value() == v,
+    { unimplemented!() }
 }
 impl Mutex<bool> {
     #[verifier::external_body]
@@ -244,8 +248,12 @@ impl<T> LogMutex<T> {
             r is Err ==> final(ctx).log == old(ctx).log,
     { unimplemented!() }
 
+    /// the value the mutex was created with
+    pub uninterp spec fn init_value(&self) -> T;
     #[verifier::external_body]
-    pub fn new(v: T) -> (r: Self) { unimplemented!() }
+    pub fn new(v: T) -> (r: Self)
+        ensures r.init_value() == v,
+    { unimplemented!() }
 }
 
 
